@@ -32,7 +32,9 @@ Indents == {[on |-> TRUE, ch |-> c, size |-> n] : c \in {32, 9}, n \in Widths}
 LOWB == <<196,162,196,166,196,167,196,188,196,190>>
 Vals == { LOWB, <<>>, <<97>>, <<60>>, <<38>>, <<34>>, <<39>>, <<62>>, <<93, 93, 62>>, <<45, 45>>, <<63, 62>>, <<32>>,
           <<195, 169>>, <<38, 97, 109, 112, 59>>, <<32, 97, 32>> }
-AV == { LOWB, <<>>, <<60>>, <<38>>, <<34>>, <<39>>, <<32, 97, 32>>, <<62>> }
+\* (literal TAB / LF / CR in an attribute value are written as they are and read back as they are: the reader does not
+\* apply attribute-value normalization)
+AV == { LOWB, <<>>, <<60>>, <<38>>, <<34>>, <<39>>, <<32, 97, 32>>, <<62>>, <<97, 9, 98>>, <<13, 10>> }
 K1 == <<107>>   K2 == <<107, 50>>
 NA == <<97>>    NE == <<195, 169>>   NB == <<97, 58, 98>>
 Descs ==
